@@ -245,31 +245,11 @@ theorem specVcf_sound (samples : List String) (recs : List Rec) (hasId : List Bo
     | true =>
       have hperm := variants_perm recs true
       simp only [if_true, Bool.and_eq_true]
-      refine ⟨⟨⟨by simp [variants_length], ?_⟩, ?_⟩, ?_⟩
+      refine ⟨⟨by simp [variants_length], ?_⟩, ?_⟩
       · rw [List.all_eq_true]
         intro v _
         rw [beq_iff_eq]
         exact (hperm.map (recVar phased)).count_eq v
-      · rw [List.all_eq_true]
-        intro jx hjx
-        have hj1 : jx + 1 < recs.length := by
-          have := List.mem_range.mp hjx
-          omega
-        have hj0 : jx < recs.length := by omega
-        have e1 := keyOf_getD samples recs true (jx + 1) hj1
-        have e0 := keyOf_getD samples recs true jx hj0
-        simp only [gotOf]
-        rw [e1, e0]
-        have hs := grouped_sorted recs
-        rw [List.pairwise_iff_getElem] at hs
-        have hl : (grouped recs).length = recs.length := grouped_length recs
-        have := hs jx (jx + 1) (by rw [hl]; exact hj0) (by rw [hl]; exact hj1) (by omega)
-        have g0 : (variants recs true).getD jx default = (grouped recs)[jx]'(by rw [hl]; exact hj0) := by
-          simp [variants, List.getD_eq_getElem?_getD, List.getElem?_eq_getElem (show jx < (grouped recs).length by rw [hl]; exact hj0)]
-        have g1 : (variants recs true).getD (jx + 1) default = (grouped recs)[jx + 1]'(by rw [hl]; exact hj1) := by
-          simp [variants, List.getD_eq_getElem?_getD, List.getElem?_eq_getElem (show jx + 1 < (grouped recs).length by rw [hl]; exact hj1)]
-        rw [g0, g1, this]
-        rfl
       · rw [List.all_eq_true]
         intro v _
         rw [decide_eq_true_iff]
@@ -277,5 +257,30 @@ theorem specVcf_sound (samples : List String) (recs : List Rec) (hasId : List Bo
             ≤ List.count v (recs.map (recNamedOf phased)) := (named_sublist (recNamedOf phased) recs hasId).count_le v
           _ = List.count v ((variants recs true).map (recNamedOf phased)) :=
               ((hperm.map (recNamedOf phased)).count_eq v).symm
+
+/-- … and the model's grouped output is in (chromosome, position) order (what `group_vrnt` adds on top of the Spec) -/
+theorem sortedOut_model (samples : List String) (recs : List Rec) :
+    sortedOut recs.length (gotOf (fromVcf samples recs true)) = true := by
+  unfold sortedOut
+  rw [List.all_eq_true]
+  intro jx hjx
+  have hj1 : jx + 1 < recs.length := by
+    have := List.mem_range.mp hjx
+    omega
+  have hj0 : jx < recs.length := by omega
+  have e1 := keyOf_getD samples recs true (jx + 1) hj1
+  have e0 := keyOf_getD samples recs true jx hj0
+  simp only [gotOf]
+  rw [e1, e0]
+  have hs := grouped_sorted recs
+  rw [List.pairwise_iff_getElem] at hs
+  have hl : (grouped recs).length = recs.length := grouped_length recs
+  have := hs jx (jx + 1) (by rw [hl]; exact hj0) (by rw [hl]; exact hj1) (by omega)
+  have g0 : (variants recs true).getD jx default = (grouped recs)[jx]'(by rw [hl]; exact hj0) := by
+    simp [variants, List.getD_eq_getElem?_getD, List.getElem?_eq_getElem (show jx < (grouped recs).length by rw [hl]; exact hj0)]
+  have g1 : (variants recs true).getD (jx + 1) default = (grouped recs)[jx + 1]'(by rw [hl]; exact hj1) := by
+    simp [variants, List.getD_eq_getElem?_getD, List.getElem?_eq_getElem (show jx + 1 < (grouped recs).length by rw [hl]; exact hj1)]
+  rw [g0, g1, this]
+  rfl
 
 end StoreVcf
